@@ -52,7 +52,7 @@ import re
 
 from .. import errdisc as E
 from .. import c12_util as U
-from ..charset import Bits, Unsupported, field_vec
+from ..charset import Unsupported, field_vec
 from ..flow import path_search, describe_path
 
 # genuine findings on the pristine tree: (rule, key, explanation)
@@ -355,7 +355,7 @@ def _bit_slices(fb, R, rec):
         pd = f.params[0]['d']
         leaf = lambda fn, n, pd=pd: 'id' if n.get('k') == 'var' and n.get('d') == pd else None
         try:
-            vecs[f.name] = (f, Bits(f, leaf, {'id': 64}).eval(_returns(f)[0]['sub']))
+            vecs[f.name] = (f, U.UBits(f, leaf, {'id': 64}).eval(_returns(f)[0]['sub']))
         except Unsupported as e:
             vecs[f.name] = (f, None)
     lo = hi = None
@@ -561,7 +561,6 @@ def _switch_rule(fb, R, rule, fn, asg, DN, SN, FN, dense_setters):
         if ok:
             ids = {c['id'] for c in good}
             # (b) no iteration skips the setter: from the body start back to the loop test
-            w = path_search(fn, body, lambda e: isinstance(e, tuple) and e[0] == 'B' and False, lambda e: e in ids, from_block_start=True)
             skip = _reaches_block(fn, body, cond_blk['id'], ids)
             # (c) the loop is left only through its own test: no path from the body to the code after the loop avoiding the test block
             leak = _reaches_exit_avoiding_block(fn, body, cond_blk['id'])
@@ -685,17 +684,22 @@ def nlfw_rules(fb, R, classes):
             continue
         flag = None
         for fn in ways:
-            sorts = [n for n in fn.all_nodes() if n.get('k') == 'call' and n.get('q', '').rsplit('::', 1)[-1] == 'sort'
-                     and (fn.root_var(n.get('recv')) or (None, None, None))[2] in stor]
-            for n in sorts:
-                for (c, s, b, o) in U.guards(fn, n['id']):
-                    m = fn.sn(c)
-                    if s and m is not None and m.get('k') == 'member' and m.get('field') and fn.is_this_member(c) and m.get('t') == 'bool':
-                        flag = m['name']
+            for name in stor:
+                for nid in _role_ids(fb, fn, _is_sort_of(name)):
+                    for (c, s, b, o) in U.guards(fn, nid):
+                        m = fn.sn(c)
+                        if s and m is not None and m.get('k') == 'member' and m.get('field') and fn.is_this_member(c) and m.get('t') == 'bool':
+                            flag = m['name']
         if flag is None:
+            reach = set()
             for fn in ways:
-                R.bad('N1-way-sorts-before-lookup', fn.q + '#sorts-both-storages-under-flag', fn.site,
-                      'way() does not sort the storages under a boolean member flag')
+                reach |= fb.callees_closure(fn, depth=3)
+            for fn in ways:
+                if any(q.rsplit('::', 1)[-1] == 'sort' and q.startswith('osmium::index::map::') for q in reach):
+                    R.broken('%s: the storages are sorted on a path from way() but not under a boolean member flag tested in way() (unknown shape)' % fn.q)
+                else:
+                    R.bad('N1-way-sorts-before-lookup', fn.q + '#sorts-both-storages-under-flag', fn.site,
+                          'way() never sorts the storages (nodes that arrived out of order cannot be found by the sparse indexes)')
             continue
         lookup_q = {f.q for f in lookups}
         for fn in ways:
@@ -708,8 +712,9 @@ def nlfw_rules(fb, R, classes):
                 continue
             for n in fn.all_nodes():
                 if n.get('k') == 'assign' and fn.is_this_member(n['lhs'], flag) and fn.const_value(n['rhs']) != 1:
-                    R.bad('N2-flag-cleared-only-after-sort', '%s#%s' % (fn.q, flag), fn.loc(n['id']),
-                          '%s clears %s without sorting the storages' % (fn.q, flag))
+                    after = all(any(fn.elem_dominates(x, n['id']) for x in _role_ids(fb, fn, _is_sort_of(name), 0)) for name in stor)
+                    R.check(after, 'N2-flag-cleared-only-after-sort', '%s#%s' % (fn.q, flag), fn.loc(n['id']),
+                            '%s clears %s without sorting the storages' % (fn.q, flag))
         # sign routing agreement
         for nf in nodes:
             for lf in lookups:
@@ -724,17 +729,54 @@ def nlfw_rules(fb, R, classes):
                         str(rn))
 
 
+def _is_sort_of(name):
+    def pred(f, n):
+        if n.get('k') == 'call' and n.get('q', '').rsplit('::', 1)[-1] == 'sort' and n.get('recv') is not None:
+            rv = f.root_var(n['recv'])
+            return rv is not None and rv[0] == 'field' and rv[2] == name
+        return False
+    return pred
+
+
+def _role_ids(fb, fn, pred, depth=1):
+    """ids of nodes of fn that play a role: pred(fn, node) holds, or the node calls (on this) a method of the same class whose
+    body performs the role on every normal path (statements extracted into a helper)."""
+    ids = [n['id'] for n in fn.all_nodes() if pred(fn, n)]
+    if depth > 0:
+        for n in fn.all_nodes():
+            if n.get('k') == 'call' and 'u' in n and n.get('rcls') == fn.cls and n.get('recv') is not None \
+                    and (fn.sn(n['recv']) or {}).get('k') == 'this':
+                g = U._callee_for(fb, fn, n)
+                if g is None or not g.has_cfg or g.id == fn.id:
+                    continue
+                inner = _role_ids(fb, g, pred, depth - 1)
+                if inner and U.must_pass(g, g.entry, inner) is None:
+                    ids.append(n['id'])
+    return ids
+
+
+def _role_before(fb, fn, pred_a, pred_b):
+    """every node playing role b is preceded by one playing role a (a helper playing both is looked into)."""
+    a_ids, b_ids = _role_ids(fb, fn, pred_a), _role_ids(fb, fn, pred_b)
+    if not a_ids or not b_ids:
+        return False
+    for b in b_ids:
+        if any(a != b and fn.elem_dominates(a, b) for a in a_ids):
+            continue
+        if b in a_ids and not pred_b(fn, fn.nodes[b]):
+            g = U._callee_for(fb, fn, fn.nodes[b])
+            if g is not None and _role_before(fb, g, pred_a, pred_b):
+                continue
+        return False
+    return True
+
+
 def _nlfw_way(fb, R, fn, stor, flag, lookup_q):
     r1, r2 = 'N1-way-sorts-before-lookup', 'N2-flag-cleared-only-after-sort'
-    sorts = {}
-    for n in fn.all_nodes():
-        if n.get('k') == 'call' and n.get('q', '').rsplit('::', 1)[-1] == 'sort':
-            rv = fn.root_var(n.get('recv'))
-            if rv is not None and rv[0] == 'field' and rv[2] in stor:
-                sorts.setdefault(rv[2], []).append(n)
-    ok = set(sorts) == set(stor)
+    sorts = {name: _role_ids(fb, fn, _is_sort_of(name)) for name in stor}
+    ok = all(sorts[name] for name in stor)
     R.check(ok, r1, fn.q + '#sorts-both-storages-under-flag', fn.site,
-            'way() sorts %s but the handler stores into %s' % (sorted(sorts), stor))
+            'way() sorts %s but the handler stores into %s' % (sorted(k for k, v in sorts.items() if v), stor))
     looks = [n for n in fn.all_nodes() if n.get('k') == 'call' and (n.get('q') in lookup_q or
              (n.get('q', '').rsplit('::', 1)[-1] in ('get', 'get_noexcept') and (fn.root_var(n.get('recv')) or (None, None, None))[2] in stor))]
     if not looks:
@@ -748,28 +790,30 @@ def _nlfw_way(fb, R, fn, stor, flag, lookup_q):
                     return False   # flag not set: nothing to sort
         return True
     for name in stor:
-        ids = {n['id'] for n in sorts.get(name, [])}
+        ids = set(sorts[name])
         for L in looks:
             w = path_search(fn, fn.entry, lambda e: e == L['id'], lambda e: e in ids, edge_ok, from_block_start=True)
             R.check(w is None and bool(ids), r1, fn.q + '#sort-precedes-every-lookup', fn.loc(L['id']),
                     'with %s set a lookup is reached before %s.sort(): %s' % (flag, name, describe_path(fn, w)))
-    clears = [n for n in fn.all_nodes() if n.get('k') == 'assign' and fn.is_this_member(n['lhs'], flag) and fn.const_value(n['rhs']) == 0]
-    allsorts = [n for v in sorts.values() for n in v]
-    ok = bool(clears) and all(all(any(fn.elem_dominates(s['id'], c['id']) for s in sorts.get(name, [])) for name in stor) for c in clears)
+    is_clear = lambda f, n: n.get('k') == 'assign' and f.is_this_member(n['lhs'], flag) and f.const_value(n['rhs']) == 0
+    ok = all(_role_before(fb, fn, _is_sort_of(name), is_clear) for name in stor)
     R.check(ok, r2, '%s#%s' % (fn.q, flag), fn.site, 'way() must clear %s only after both storages were sorted (and must clear it, or every way re-sorts)' % flag)
-    # sentinel reset: where the flag is cleared the last-id member is set to the maximum of its type
-    last = None
-    for n in fn.all_nodes():
-        if n.get('k') == 'assign' and n.get('op') == '=' and fn.is_this_member(n['lhs']) and not fn.is_this_member(n['lhs'], flag):
-            v = fn.const_value(n['rhs'])
-            m = fn.sn(n['lhs'])
-            if v is None:
-                x = U.scn(fn, n['rhs'])
-                if x is not None and x.get('k') == 'call' and x.get('q') == 'std::numeric_limits::max':
-                    v = 'max'
-            last = (n, m['name'], v)
-    ok = last is not None and last[2] in ('max', 2 ** 64 - 1) and any(fn.elem_dominates(s['id'], last[0]['id']) for s in allsorts) \
-        and all(U.must_pass_after(fn, c['id'], [last[0]['id']]) is None or fn.elem_dominates(last[0]['id'], c['id']) for c in clears)
+
+    # sentinel reset: after the sorts the last-id member is set to the maximum of its type, on every path that clears the flag
+    def is_reset(f, n):
+        if n.get('k') == 'assign' and n.get('op') == '=' and f.is_this_member(n['lhs']) and not f.is_this_member(n['lhs'], flag):
+            if f.const_value(n['rhs']) == 2 ** 64 - 1:
+                return True
+            x = U.scn(f, n['rhs'])
+            return x is not None and x.get('k') == 'call' and x.get('q') == 'std::numeric_limits::max' and not x.get('args')
+        return False
+    resets = _role_ids(fb, fn, is_reset)
+    clears = _role_ids(fb, fn, is_clear)
+    ok = bool(resets) and all(_role_before(fb, fn, _is_sort_of(name), is_reset) for name in stor)
+    for c in clears:
+        if c in resets:
+            continue
+        ok = ok and (any(fn.elem_dominates(r, c) for r in resets) or U.must_pass_after(fn, c, resets) is None)
     R.check(ok, 'N3-last-id-sentinel-reset', fn.q + '#last-id-reset-to-max-after-sort', fn.site,
             'after sorting, way() must set the last-seen id to the maximum so that the next node() requests a new sort '
             '(a node appended to the sorted storage with an id between the last and the largest stored id would not be found)')
@@ -787,8 +831,8 @@ def _nlfw_way(fb, R, fn, stor, flag, lookup_q):
     for s_ in sets:
         good = False
         for (c, s, b, o) in U.guards(fn, s_['id']):
-            txt = fn.expr(c)
-            if not s and 'location' in txt:
+            callees = {fn.nodes[x].get('q') for x in fn.subtree(c) if fn.nodes[x].get('k') == 'call'}
+            if not s and callees & {'osmium::Location::(conv)', 'osmium::Location::valid', 'osmium::Location::is_defined'}:
                 good = True
         ok = ok and good
     R.check(ok, 'N5-missing-location-throws', fn.q + '#not_found-unless-ignored', fn.site,
@@ -1029,8 +1073,7 @@ def dump_rules(fb, R, classes):
                 if p is None or p.get('k') != 'call' or not p.get('q', '').endswith('::data') or p.get('recv') is None:
                     continue    # windowed dump through a scratch buffer: not decided
                 cont = U.ctext(fb, fn, p['recv'])
-                r = fn.nodes.get(fn.strip(p['recv']))
-                et = U.element_type((r or {}).get('t', ''))
+                et = U._plain(p.get('t', ''))     # pointee of C.data()
                 ln = a[2]
                 x = U.scn(fn, ln)
                 if x is not None and x.get('k') == 'call':
@@ -1218,3 +1261,41 @@ def run(ctx):
         all_rules(fb, R)
         fbx = ctx.facts(['c12_extra'], cfg)
         registration_rules(fbx, R)
+    # instance floors = distinct (rule, key) pairs confirmed by reading the tree (see the keys in evidence/C12.json)
+    R.expect('G1-get-absent-throws', 16)            # 5 classes: not_found + per stored-value return its miss tests
+    R.expect('G2-get_noexcept-absent-empty', 28)    # 5 get_noexcept + FlexMem get_dense / get_sparse
+    R.expect('B1-dense-access-in-bounds', 6)        # dense get / get_noexcept / set, FlexMem assure_block / get_dense / set_dense outer index
+    R.expect('S1-search-key-prefix-of-sort-key', 2)  # VectorBasedSparseMap::find_id, FlexMem::get_sparse
+    R.expect('S2-sort-override-sorts-searched-container', 2)
+    R.expect('F1-flexmem-block-offset-tiling', 6)
+    R.expect('F2-flexmem-switch-carries-all', 5)
+    R.expect('F3-flexmem-mode-dispatch', 2)
+    R.expect('N1-way-sorts-before-lookup', 2)
+    R.expect('N2-flag-cleared-only-after-sort', 1)
+    R.expect('N2-flag-set-on-descent', 1)
+    R.expect('N2-last-id-tracked', 1)
+    R.expect('N3-last-id-sentinel-reset', 1)
+    R.expect('N4-sign-routing-agrees', 1)
+    R.expect('N5-missing-location-throws', 1)
+    R.expect('V1-mmap-vector-growth-filled-empty', 3)   # two constructors + reserve
+    R.expect('V2-mmap-vector-size-within-capacity', 3)  # resize, reserve, push_back
+    R.expect('D1-dump-writes-whole-vector', 3)
+    R.expect('T1-registration-table', 50)           # 16 rows x (unique, denotes) + 8 agree + 8 register_map + factory create / register
+    R.expect('E1-mmap-oserror-reaches-throw', 9)    # mmap x2, mremap, munmap, fstat, ftruncate, open, tmpfile, dup
+
+
+def _selftest_maps(fb, R):
+    classes = map_classes(fb)
+    bounds_rules(fb, R, classes)
+    get_rules(fb, R, classes)
+    sorted_rules(fb, R, classes)
+    flexmem_rules(fb, R)
+    nlfw_rules(fb, R, classes)
+    mmap_vector_rules(fb, R)
+
+
+SELFTESTS = [(r, 'c12_maps.cpp', _selftest_maps) for r in (
+    'B1-dense-access-in-bounds', 'G1-get-absent-throws', 'G2-get_noexcept-absent-empty', 'S1-search-key-prefix-of-sort-key',
+    'S2-sort-override-sorts-searched-container', 'F1-flexmem-block-offset-tiling', 'F2-flexmem-switch-carries-all',
+    'F3-flexmem-mode-dispatch', 'N1-way-sorts-before-lookup', 'N2-flag-set-on-descent', 'N3-last-id-sentinel-reset',
+    'N4-sign-routing-agrees', 'V1-mmap-vector-growth-filled-empty', 'V2-mmap-vector-size-within-capacity')]
